@@ -128,15 +128,25 @@ def gen_instance(rng, sw=None, thorough=False):
     twopl = sw['twopl'] if 'twopl' in sw else (rng.random() < 0.7)
     n1 = rng.randint(1, 5 if thorough else 4)
     n2 = rng.randint(1, 4)
+    shape = sw.get('shape') or rng.choice(
+        ['small'] * 8 + ['many-projects', 'many-students'])
+    if shape == 'many-projects':       # two-digit project / lecturer ids
+        n2 = rng.randint(9, 12)
     n3 = rng.randint(1, 3) if na == 3 else n2
     if na == 3 and rng.random() < 0.15:
         n3 = rng.randint(n2, n2 + 2)      # more lecturers than projects
+    if shape == 'many-students':       # two-digit student ids, short lists
+        n1 = rng.randint(8, 10)
     ties1 = sw.get('ties1', rng.choice([0, 0, .3, .7, 1]))
     ties2 = sw.get('ties2', rng.choice([0, 0, .3, .7, 1]))
     maxlen = min(n2, 3)
     students = []
     for i in range(n1):
         k = rng.randint(0 if rng.random() < 0.25 else 1, maxlen)
+        if shape == 'many-students':
+            k = min(k, 1)              # keeps the assignment space <= 2^10
+        elif shape == 'many-projects':
+            k = min(k, 2) if n1 > 3 else k
         pl = rng.sample(range(1, n2 + 1), k)
         students.append(_tie_groups(pl, ties1, rng))
     if not any(students):
